@@ -39,6 +39,7 @@ type Prog struct {
 
 	fieldPtrWriters map[string]map[*ssa.Function]bool
 	ptrWritesMemo   map[string][]ptrWrite
+	paramMap        map[*ssa.Function][]int
 	// NormaliseLog: what normalise.go rewrote before the analysis (empty on the reference tree)
 	NormaliseLog []string
 }
@@ -143,7 +144,7 @@ func Load(dir string, overlayDir string, normalise bool) *Prog {
 			})
 		}
 	}
-	p := &Prog{NormaliseLog: normLog, Dir: dir, Pkgs: pkgs, ByPath: map[string]*packages.Package{}, byName: map[string]*ssa.Function{}, rend: map[*ssa.Function]*Renderer{}, Overlay: overlay, overlayJSON: overlayJSON}
+	p := &Prog{Dir: dir, Pkgs: pkgs, ByPath: map[string]*packages.Package{}, byName: map[string]*ssa.Function{}, rend: map[*ssa.Function]*Renderer{}, Overlay: overlay, overlayJSON: overlayJSON}
 	for _, pk := range pkgs {
 		if len(pk.Errors) > 0 || pk.IllTyped {
 			for _, e := range pk.Errors {
@@ -158,6 +159,11 @@ func Load(dir string, overlayDir string, normalise bool) *Prog {
 		p.Fset = pk.Fset
 		p.NFiles += len(pk.Syntax)
 	}
+	// functions of the reference inventory that were only renamed keep their old key
+	renamedKeys = computeRenames(pkgs)
+	for nk, ok := range renamedKeys {
+		normLog = append(normLog, "renamed: "+ok+" is now "+nk+" (same package, receiver and signature; analysed under its old name)")
+	}
 	prog, spkgs := ssautil.Packages(pkgs, ssa.InstantiateGenerics)
 	for i, sp := range spkgs {
 		if sp == nil {
@@ -166,6 +172,7 @@ func Load(dir string, overlayDir string, normalise bool) *Prog {
 	}
 	prog.Build()
 	p.SSA = prog
+	p.NormaliseLog = normLog
 	progOf[prog] = p
 	for i, sp := range spkgs {
 		_ = i
@@ -261,17 +268,24 @@ func FuncKey(f *ssa.Function) string {
 	} else if o := f.Object(); o != nil && o.Pkg() != nil {
 		pkg = relPkg(o.Pkg().Path())
 	}
+	k := pkg + "." + f.Name()
 	if recv := f.Signature.Recv(); recv != nil {
 		t := recv.Type()
 		if pt, ok := t.(*types.Pointer); ok {
 			t = pt.Elem()
 		}
 		if nt, ok := t.(*types.Named); ok {
-			return pkg + "." + nt.Obj().Name() + "." + f.Name()
+			k = pkg + "." + nt.Obj().Name() + "." + f.Name()
 		}
 	}
-	return pkg + "." + f.Name()
+	if old, ok := renamedKeys[k]; ok {
+		return old
+	}
+	return k
 }
+
+// renamedKeys: new key → key in the reference inventory (computeRenames).
+var renamedKeys = map[string]string{}
 
 // Fn resolves a function by key; failing to resolve an anchor is an infrastructure failure.
 func (p *Prog) Fn(key string) *ssa.Function {
